@@ -1,5 +1,6 @@
 import PydjinniModel.Drv.FrontJson
 import PydjinniModel.Front.Spec
+import PydjinniModel.Front.Order
 /-! Driver handlers for property C05 (and the shared multi-file front end op `c05.front`). -/
 namespace Pydjinni.Drv.C05
 open Lean Pydjinni.Front Pydjinni.Drv.FrontJson
@@ -29,36 +30,8 @@ def programOf (fs : List (APath × FileContent)) : Option (List ProgFile) :=
     | .idl _, none => none
     | _, acc => acc) (some [])
 
-/-- the order in which the files of a program are finished: the files a file imports (first visit, textual order,
-    found by the search order of `findFile`) before the file itself. `(visited, finished)`. -/
-def finishOrder (cfg : Cfg) (fs : FS) : Nat → APath → APath → List APath × List APath → List APath × List APath
-  | 0, _, _, acc => acc
-  | fuel + 1, file, spelled, (visited, done) =>
-    match fs.get file with
-    | some (.idl text) =>
-      match parseText text with
-      | none => (visited, done)
-      | some f =>
-        let (visited, done) := f.loads.foldl (fun (acc : List APath × List APath) l =>
-          if !l.isImport then acc else
-          match findFile cfg fs spelled (filepathText l.lit) with
-          | some (c, p) => if acc.1.contains p then acc else finishOrder cfg fs fuel p c.path (acc.1 ++ [p], acc.2)
-          | none => acc) (visited, done)
-        (visited, done ++ [file])
-    | _ => (visited, done)
-
-/-- the program reachable from `root`, its files in finish order; `none` if some file is outside the grammar -/
-def programInOrder (cfg : Cfg) (fs : List (APath × FileContent)) (root : APath) : Option (List ProgFile) :=
-  let r := normPath root
-  let order := (finishOrder cfg { files := fs } (fs.length + 2) r root ([r], [])).2
-  order.foldr (fun p acc =>
-    match (({ files := fs } : FS).get p), acc with
-    | some (FileContent.idl text), some l =>
-      match parseText text with
-      | some f => some ({ file := showPath p, contents := f.contents } :: l)
-      | none => none
-    | some (FileContent.idl _), none => none
-    | _, acc => acc) (some [])
+/- `finishOrder` / `programInOrder` (the files of a program in finish order) are model definitions now:
+   `Front/Order.lean`; `Props/C16Order.lean` proves that `parseOne` finishes files in that order. -/
 
 /-- sites (file, position) of external type definitions, with their keys -/
 def extSites (fs : List (APath × FileContent)) : List (String × String × Pos) :=
